@@ -56,13 +56,14 @@ VARIABLES
   vrep,      \* node -> time at which it was last handed a replication reply from a voter of its configuration
   rlast,     \* <<node, voter>> -> line of the last replication reply from that voter handed to the node
   rtime,     \* <<node, voter>> -> time of the last replication reply from that voter handed to the node
+  pubmax,    \* <<node, inc>> -> largest label of a snapshot this incarnation has published (taken or installed)
   cfgv,      \* <<index, term>> -> voters of the configuration entry with that index and term
   inhand,    \* rpc id -> [to, inc, kind] : delivered to a handler that has not returned yet
   pgr,       \* <<node, send time, term>> -> voters whose prevote grants of that round were handed to the node
   bad        \* set of violation records
 
 vars == <<l, meta, dur, pstate, maxterm, votes, applied, cursor, leaders, lfirst, committed, cterm,
-          reqs, hpre, stat, inv, wdone, rdone, retd, dead, mtrack, mwait, finals, healed, s5, hl, fsmc, taken, sopen, isidx, wlab, lastae, s7, vrep, rlast, rtime, cfgv, inhand, pgr, bad>>
+          reqs, hpre, stat, inv, wdone, rdone, retd, dead, mtrack, mwait, finals, healed, s5, hl, fsmc, taken, sopen, isidx, wlab, lastae, s7, vrep, rlast, rtime, pubmax, cfgv, inhand, pgr, bad>>
 
 -----------------------------------------------------------------------------
 Ev == Trace[l]
@@ -821,6 +822,11 @@ C11_Log ==
   (IF Is("log_discard") /\ ~Has("err") /\ Ev.node \in DOMAIN dur /\ Ev.index < Log(Ev.node).base
      THEN {V("C11", "LogBoundaryMovedBackwards", <<Ev.node, Log(Ev.node).base, Ev.index>>)} ELSE {})
   \cup
+  \* a node does not publish a received snapshot that is older than one it has published already
+  \* (it would be "the most recent snapshot" on disk from then on)
+  (IF InstSnapshot /\ Ev.index < Get(pubmax, Inst, 0)
+     THEN {V("C11", "PublishedOlderSnapshot", <<Ev.node, Get(pubmax, Inst, 0), Ev.index>>)} ELSE {})
+  \cup
   \* an installed snapshot is, byte for byte, a snapshot some node produced
   (IF InstSnapshot /\ <<Ev.index, Ev.term, Ev.h, Ev.size>> \notin taken
      THEN {V("C11", "InstalledSnapshotNotFromSender", <<Ev.node, Ev.index, Ev.term, Ev.size, Ev.h>>)} ELSE {})
@@ -853,7 +859,7 @@ NewBad ==
                    THEN [b EXCEPT !.kf = "S5"]
                  ELSE IF b.p \in {"C10", "C11", "C01"} /\ Has("node") /\ (Ev.node \in s7 \/ KF_S7)
                       /\ b.c \in {"InstalledSnapshotNotFromSender", "SnapshotNotExact", "RestoredStateNotExact", "OperationAppliedTwice",
-                                  "OperationSkipped", "IndexMovedBackwards", "SnapshotNotASnapshot", "InstalledOlderThanApplied", "ApplyOrder", "LogBoundaryMovedBackwards"}
+                                  "OperationSkipped", "IndexMovedBackwards", "SnapshotNotASnapshot", "InstalledOlderThanApplied", "ApplyOrder", "LogBoundaryMovedBackwards", "PublishedOlderSnapshot"}
                    THEN [b EXCEPT !.kf = "S7"]
                  \* a member whose state machine was restored from such bytes never equals the leader's
                  ELSE IF b.p = "C15" /\ b.c = "NotConvergedWithin4B" /\ s7 # {}
@@ -869,7 +875,7 @@ Init ==
   /\ dur = <<>> /\ pstate = <<>> /\ maxterm = <<>> /\ votes = {} /\ applied = <<>> /\ cursor = <<>>
   /\ leaders = <<>> /\ lfirst = {} /\ committed = <<>> /\ cterm = <<>> /\ reqs = <<>> /\ hpre = <<>> /\ stat = <<>>
   /\ inv = <<>> /\ wdone = {} /\ rdone = {} /\ retd = {} /\ dead = {} /\ mtrack = <<>> /\ mwait = <<>>
-  /\ finals = <<>> /\ healed = FALSE /\ s5 = FALSE /\ hl = NoHealthy /\ fsmc = <<>> /\ taken = {} /\ sopen = <<>> /\ isidx = <<>> /\ wlab = <<>> /\ lastae = <<>> /\ s7 = {} /\ vrep = <<>> /\ rlast = <<>> /\ rtime = <<>> /\ cfgv = <<>> /\ inhand = <<>> /\ pgr = <<>> /\ bad = {}
+  /\ finals = <<>> /\ healed = FALSE /\ s5 = FALSE /\ hl = NoHealthy /\ fsmc = <<>> /\ taken = {} /\ sopen = <<>> /\ isidx = <<>> /\ wlab = <<>> /\ lastae = <<>> /\ s7 = {} /\ vrep = <<>> /\ rlast = <<>> /\ rtime = <<>> /\ pubmax = <<>> /\ cfgv = <<>> /\ inhand = <<>> /\ pgr = <<>> /\ bad = {}
 
 Next ==
   /\ l <= Len(Trace)
@@ -909,6 +915,9 @@ Next ==
   /\ rlast' = NextRlast
   /\ rtime' = (IF Is("scenario") THEN <<>> ELSE IF Is("reply") /\ Ev.kind \in {"ae", "is"} THEN Put(rtime, <<Ev.from, Ev.to>>, Ev.t) ELSE rtime)
   /\ pgr' = NextPgr
+  /\ pubmax' = (IF Is("scenario") THEN <<>>
+                ELSE IF Is("snap_close") /\ ~Has("err") THEN Put(pubmax, Inst, Max(Get(pubmax, Inst, 0), Ev.index))
+                ELSE pubmax)
   /\ cfgv' = (IF Is("scenario") THEN <<>>
               ELSE IF Is("log_append") /\ ~Has("err")
                 THEN LET cs == {j \in 1..Len(Ev.entries) : Ev.entries[j].k = 2 /\ "cv" \in DOMAIN Ev.entries[j]} IN
